@@ -283,6 +283,7 @@ class Algebra:
         self.stats = {"mul_terms": 0, "folds": 0, "deepen": 0, "equal_calls": 0, "opaque": 0}
         self.fold_enabled = True
         self.ranges = {}         # sym name -> (lo, hi) range for witness search
+        self.opaque_rules = {}   # fname -> rule(args) -> RF or None (axioms of an uninterpreted function)
         self._memo = {}
 
     # ------------------------------------------------------------------ budget
@@ -337,10 +338,27 @@ class Algebra:
         raise AnalysisError("cannot lift %r into the ring" % (v,))
 
     def opaque(self, fname, args, positive=False):
-        key = (fname, tuple(self.key(a) for a in args))
+        """uninterpreted pure function application; interned semantically (equal arguments
+        give the same atom)"""
+        args = [self.expand_all(a) if isinstance(a, RF) and self.atoms_of(a, "defined") else a for a in args]
+        rule = self.opaque_rules.get(fname)
+        if rule is not None:
+            r = rule(args)
+            if r is not None:
+                return r
+        key = (fname, tuple(self.key(a) if isinstance(a, RF) else repr(a) for a in args))
         if key in self.opaques:
             return self.atom_rf(self.opaques[key])
-        a = self._new_atom("%s(%s)" % (fname, ",".join(self.show(x, 40) for x in args)), "opaque", positive=positive)
+        for (fn2, k2), at in list(self.opaques.items()):
+            if fn2 != fname or len(at.args) != len(args):
+                continue
+            try:
+                if all(isinstance(x, RF) and isinstance(y, RF) and self.equal(x, y, 4000) for x, y in zip(args, at.args)):
+                    self.opaques[key] = at
+                    return self.atom_rf(at)
+            except Budget:
+                continue
+        a = self._new_atom("%s(%s)" % (fname, ",".join(self.show(x, 40) if isinstance(x, RF) else repr(x) for x in args)), "opaque", positive=positive)
         a.args = args
         a.fp = 0.7 + (hash_str(repr(key)) % 7919) / 7919.0
         if not positive and hash_str(repr(key) + "s") % 2:
@@ -902,6 +920,37 @@ class Algebra:
         shift x = bound + x'), known facts."""
         if not rf.num:
             return "0"
+        inds = sorted(self.atoms_of(rf, "ind"))
+        if inds and len(inds) <= 4 and rf.den:
+            # Shannon split of the whole quotient (numerator and denominator jointly)
+            w = inds[0]
+            cond = self.atoms[w].cond
+            res = []
+            for val, fact in ((1, dict(cond)), (0, {m: -c for m, c in cond.items()})):
+                self.facts_nonneg.append(fact)
+                try:
+                    num = self._subst_atom_const(rf.num, w, val)
+                    r = RF(self, num)
+                    bad = False
+                    for fid, mult in rf.den:
+                        fp = self._subst_atom_const(self.factors[fid], w, val)
+                        if not fp:
+                            bad = True
+                            break
+                        r = self.div(r, self.pow(RF(self, fp), mult))
+                    res.append(None if bad else self.sign(r))
+                finally:
+                    self.facts_nonneg.pop()
+            if None in res:
+                return None
+            if res[0] == res[1]:
+                return res[0]
+            both = set(res)
+            if both <= {"+", ">=0", "0"}:
+                return ">=0"
+            if both <= {"-", "<=0", "0"}:
+                return "<=0"
+            return None
         s = self._sign_poly(rf.num)
         if s is None:
             return None
@@ -988,10 +1037,20 @@ class Algebra:
         inds = sorted({a for m in p for a, e in m if self.atoms[a].idem})
         if inds and len(inds) <= 5 and depth < 3:
             w = inds[0]
-            s1 = self._sign_poly(self._subst_atom_const(p, w, 1), depth)
+            cond = self.atoms[w].cond
+            # inside each branch the indicator's own condition is a fact
+            self.facts_nonneg.append(dict(cond))
+            try:
+                s1 = self._sign_poly(self._subst_atom_const(p, w, 1), depth)
+            finally:
+                self.facts_nonneg.pop()
             if s1 is None:
                 return None
-            s0 = self._sign_poly(self._subst_atom_const(p, w, 0), depth)
+            self.facts_nonneg.append({m: -c for m, c in cond.items()})
+            try:
+                s0 = self._sign_poly(self._subst_atom_const(p, w, 0), depth)
+            finally:
+                self.facts_nonneg.pop()
             if s0 is None:
                 return None
             if s1 == s0:
